@@ -1,7 +1,7 @@
 (** C15 — model of qcelemental.molutil.molecular_formula_from_symbols (Counter over title-cased symbols, sorted
     keys, Hill exception, count suffixes) on ASCII symbols.  Hand-written; tied by harness/props/c15.py. *)
 From Coq Require Import ZArith List String Ascii Bool Arith DecimalString.
-Require Import QV.Common.Outcome QV.Common.HFSort QV.Common.HFHash.
+Require Import QV.Common.Outcome QV.Common.HFSort QV.Common.HFHash QV.Gen.FragGlue.
 Import ListNotations.
 Open Scope nat_scope.
 
@@ -64,6 +64,21 @@ Definition parse_order (s : string) : outcome forder :=
 Definition formula_from_symbols (syms : list string) (order : string) : outcome string :=
   obind (parse_order order) (fun o => Ok (formula o syms)).
 
+(* the membership test `order.lower() in supported_orders` with the generated list (Proofs/FragmentMore.v: it accepts
+   exactly the names parse_order accepts) *)
+Definition lower (s : string) : string := title_from true s.
+Definition order_supported (s : string) : bool := existsb (String.eqb (lower s)) supported_orders.
+
+(** Molecule.get_molecular_formula(order="alphabetical", chgmult=False) on the molecule's symbols (ghost atoms included),
+    integer charge and multiplicity: {mult}^{formula}{+...+ / -...-} when asked for and not a neutral singlet *)
+Fixpoint rep_str (c : ascii) (n : nat) : string := match n with O => EmptyString | S k => String c (rep_str c k) end.
+Definition mol_formula (syms : list string) (c m : Z) (order : option string) (chgmult : option bool) : outcome string :=
+  obind (formula_from_symbols syms (match order with Some o => o | None => formula_default_order end)) (fun f =>
+  let cm := match chgmult with Some b => b | None => formula_default_chgmult end in
+  if negb cm || ((c =? 0)%Z && (m =? 1)%Z) then Ok f else
+  let f1 := if (1 <? m)%Z then String.append (nat_str (Z.to_nat m)) (String "^"%char f) else f in
+  Ok (String.append f1 (if (c <? 0)%Z then rep_str "-"%char (Z.to_nat (- c)) else if (0 <? c)%Z then rep_str "+"%char (Z.to_nat c) else EmptyString))).
+
 (** reading a formula back (order_molecular_formula): re.findall of an upper-case letter followed by non-upper-case
     characters cuts the text at upper-case letters; in each piece re.match of non-digits then digits takes the non-digits as the symbol and the digits that follow as
     the count (1 when there are none); whatever follows those digits inside the piece is ignored *)
@@ -100,5 +115,13 @@ Definition order_formula (s : string) (order : string) : outcome string :=
 (** correspondence helpers *)
 Definition check_formula (c : list string * string * outcome string) : bool :=
   let '(syms, order, expected) := c in outcome_eqb String.eqb (formula_from_symbols syms order) expected.
+(* Molecule.get_molecular_formula: (symbols, charge, multiplicity, order / None, chgmult / None, expected) *)
+Definition check_mol_formula (c : list string * Z * Z * option string * option bool * outcome string) : bool :=
+  let '(syms, ch, m, order, cm, expected) := c in outcome_eqb String.eqb (mol_formula syms ch m order cm) expected.
+(* molecular_formula_from_symbols / order_molecular_formula called without `order` *)
+Definition check_default_order (c : list string * string * string) : bool :=
+  let '(syms, f1, f2) := c in
+  outcome_eqb String.eqb (formula_from_symbols syms mffs_default_order) (Ok f1)
+  && outcome_eqb String.eqb (order_formula f1 omf_default_order) (Ok f2).
 Definition check_order_formula (c : string * string * outcome string) : bool :=
   let '(s, order, expected) := c in outcome_eqb String.eqb (order_formula s order) expected.
